@@ -259,13 +259,29 @@ def _value_const_ints(val: Optional[ir.Value]) -> Optional[Tuple[int, ...]]:
 
 
 def _shapes_compatible(a: Optional[ir.Value], b: Optional[ir.Value]) -> bool:
-    ta, tb = _shape_tuple(a), _shape_tuple(b)
-    if ta is None or tb is None or len(ta) != len(tb):
+    """Return True only when both shapes are provably equal for every binding.
+
+    Symbolic dimensions are not wildcards: ``[B, N]`` and ``[N, B]`` differ
+    whenever ``B != N``.  Two symbolic dims match only if they carry the same
+    name; an unknown dim or a symbolic/integer mix cannot be proven equal.
+    """
+    if a is None or b is None:
         return False
-    for da, db in zip(ta, tb):
-        if da == -1 or db == -1:
+    dims_a, dims_b = _shape_dims_seq(a.shape), _shape_dims_seq(b.shape)
+    if dims_a is None or dims_b is None or len(dims_a) != len(dims_b):
+        return False
+    for da, db in zip(dims_a, dims_b):
+        a_int = isinstance(da, (int, np.integer))
+        b_int = isinstance(db, (int, np.integer))
+        if a_int and b_int:
+            if int(da) != int(db):
+                return False
             continue
-        if da != db:
+        if a_int or b_int:
+            return False
+        name_a = getattr(da, "value", None)
+        name_b = getattr(db, "value", None)
+        if name_a is None or name_b is None or name_a != name_b:
             return False
     return True
 
